@@ -320,6 +320,27 @@ func TestVerifReplayTransactionSet(t *testing.T) {
 			}
 		}
 	}
+	// C07: a re-prioritised intent whose apply fails: the device is asked first, and nothing is written when it refuses
+	for _, pr := range [][2]int32{{10, 5}, {5, 10}} {
+		for _, sbiF := range []bool{false, true} {
+			n++
+			sc := vrScenario{content: "valid", existingPrio: pr[0], newPrio: pr[1], sbiFails: sbiF}
+			trace, _, err, d := vrRun(t, sc)
+			input := fmt.Sprintf("%s,existingPriority=%d,newPriority=%d err=%v effects=%v", sc, pr[0], pr[1], err, trace)
+			for _, fn := range []string{fnTS, fnLL} {
+				if len(trace) > 0 && !strings.HasPrefix(trace[0], "Set(") {
+					fmt.Printf("REPLAY-FAIL fn=%s clause=device_first input=%s why=first effect %s\n", fn, input, trace[0])
+				}
+				if sbiF && (err == nil || len(trace) != 1) {
+					fmt.Printf("REPLAY-FAIL fn=%s clause=rejected_by_device_persists_nothing input=%s why=the device rejected the change, yet a store was written or the run succeeded\n", fn, input)
+					fmt.Printf("REPLAY-FAIL fn=%s clause=failed_apply_persists_nothing input=%s why=the device rejected the change, yet a store was written or the run succeeded\n", fn, input)
+				}
+			}
+			if err == nil {
+				d.transactionManager.Confirm("trans1")
+			}
+		}
+	}
 	fmt.Printf("REPLAY-CASES fn=%s n=%d\n", fnTS, n)
 	fmt.Printf("REPLAY-CASES fn=%s n=%d\n", fnLL, n/2)
 }
